@@ -86,8 +86,12 @@ def replay(tid, cons, styles_by_rank, rounds, rng, variant_override=None):
     nb = [str(c.sample_num) for c in lb]
     CVR.assign_sample_nums(la, SHA256(seed))
     nagain = [str(c.sample_num) for c in la]
+    # cards that never carried a sample number, same seed: the numbers depend on seed and position only
+    lf = [CVR(id=f"f{pos}", votes={}) for pos in range(n)]
+    CVR.assign_sample_nums(lf, SHA256(seed))
+    nfresh = [str(c.sample_num) for c in lf]
     recs = [{"tid": f"{tid}:0", "walk": tid, "act": "init", "cons": cons, "styles": styles, "order": perm,
-             "nums_a": na, "nums_b": nb, "nums_again": nagain}]
+             "nums_a": na, "nums_b": nb, "nums_again": nagain, "nums_fresh": nfresh}]
 
     def mk_contests():
         d = {}
@@ -96,18 +100,32 @@ def replay(tid, cons, styles_by_rank, rounds, rng, variant_override=None):
                                      "n_winners": 1, "candidates": ["A", "B"], "winner": ["A"],
                                      "audit_type": Audit.AUDIT_TYPE.CARD_COMPARISON, "use_style": True,
                                      "sample_size": 0})
-            tst = NonnegMean(test=NonnegMean.alpha_mart, estim=NonnegMean.fixed_alternative_mean, u=4 / 3, N=200, t=0.5,
-                             eta=0.9)
+            tst = NonnegMean(**test_cfgs[c], u=4 / 3, N=200, t=0.5)
             asn = Assertion(contest=con, winner="A", loser="B",
                             assorter=Assorter(contest=con, assort=lambda cv, cid=c: cv.votes[cid]["v"], upper_bound=1),
                             margin=0.5, test=tst, p_value=1, p_history=[], proved=False)
             con.assertions = {"A v B": asn}
             d[c] = con
         return d
+    # each contest's assertion is tested with a seed-chosen real test (the risk must not rise whatever the test)
+    choices = [dict(test=NonnegMean.alpha_mart, estim=NonnegMean.fixed_alternative_mean, eta=0.9),
+               dict(test=NonnegMean.alpha_mart, estim=NonnegMean.shrink_trunc, eta=0.9, d=10, f=0.01, c=0.5),
+               dict(test=NonnegMean.alpha_mart, estim=NonnegMean.shrink_trunc, eta=0.75, d=2, f=0.5, c=0.25),
+               dict(test=NonnegMean.betting_mart, bet=NonnegMean.agrapa, lam=0.5),
+               dict(test=NonnegMean.betting_mart, bet=NonnegMean.fixed_bet, lam=0.7)]
+    test_cfgs = {c: rng.choice(choices) for c in cons}
     contests = mk_contests()
     contests_alt = mk_contests()
     manifest = pd.DataFrame({"Tray #": ["1"], "Tabulator Number": ["1"], "Batch Number": ["1"], "Total Ballots": [n],
                              "VBMCart.Cart number": ["1"]})
+    low = {pos for pos in range(n) if rng.random() < 0.3}      # cards whose manual record is a large overstatement
+
+    def mvr_val(pos):      # identifies the card; in [1/2, 1] normally, in [-1/2, 0] for an overstated card
+        return (pos + 1) / 64 + (-0.5 if pos in low else 0.5)
+
+    def decode(b):         # overstatement assorter value (1 - (1/2 - v))/(3/2) back to the list position
+        v = b * 1.5 - 0.5
+        return int(round((v + 0.5 if v < 0.25 else v - 0.5) * 64)) - 1
     prev = None
     prev_alt = None
     for step, rd in enumerate(rounds, start=1):
@@ -133,13 +151,13 @@ def replay(tid, cons, styles_by_rank, rounds, rng, variant_override=None):
                 mvr_sample = []
                 for cv in cvr_sample:
                     pos = int(cv.id.split("-")[2])
-                    mvr_sample.append(CVR(id=cv.id, votes={c: {"v": 0.5 + (pos + 1) / 64} for c in cv.votes}))
+                    mvr_sample.append(CVR(id=cv.id, votes={c: {"v": mvr_val(pos)} for c in cv.votes}))
                 rng.shuffle(mvr_sample)
                 CVR.prep_comparison_sample(mvr_sample, cvr_sample, sample_order)
                 data = {}
                 for c in cons:
                     d, u = contests[c].assertions["A v B"].mvrs_to_data(mvr_sample, cvr_sample)
-                    data[c] = [int(round((float(x) * 1.5 - 1) * 64)) - 1 for x in d]
+                    data[c] = [decode(float(x)) for x in d]
                 # a test is only defined on a non-empty sample (C11's domain): contests without data keep their state
                 live = {c: contests[c] for c in cons if data[c]}
                 if live:
